@@ -9,7 +9,7 @@ greedy star is needed (`Re.first`), so the lemmas are about heads.
 -/
 namespace CssVerif.Tok
 open CssVerif CssVerif.Gen.C05
-open CssVerif.Sel (inRanges identStartR nameStartR identRestR hexR escOk nameBody plainName nameStopR)
+open CssVerif.Sel (inRanges identStartR nameStartR identRestR hexR escOk nameBody plainName nameStopR uSecondR)
 
 /-! ## heads of a greedy star -/
 
@@ -91,6 +91,12 @@ theorem escOk_facts {d : Nat} (h : escOk d = true) :
   · simp [Re.inCls]; omega
   · simp [Re.inCls]; omega
 
+theorem escOk_notHex {d : Nat} (h : escOk d = true) : isHex d = false := by
+  simp only [escOk, inRanges, hexR, List.any_cons, List.any_nil, Bool.or_false, Bool.and_eq_true, Bool.not_eq_true',
+    Bool.or_eq_false_iff, Bool.and_eq_false_iff, decide_eq_false_iff_not, bne_iff_ne, ne_eq] at h
+  simp only [isHex, Bool.or_eq_false_iff, Bool.and_eq_false_iff, decide_eq_false_iff_not]
+  omega
+
 theorem escTail_ms (d : Nat) (t : Cps) (hd : escOk d = true) : escTail.ms (d :: t) = [1] := by
   obtain ⟨h1, h2⟩ := escOk_facts hd
   rw [escTail_form]
@@ -102,6 +108,89 @@ theorem nmchar_ms_esc (d : Nat) (t : Cps) (hd : escOk d = true) : nmcharRe.ms (9
   have hB : Re.inCls true [(0, 127)] 92 = false := by decide
   have hC : Re.inCls false [(92, 92)] 92 = true := by decide
   simp [Re.ms, hA, hB, hC, escTail_ms d t hd]
+
+theorem nmstartRe_form : nmstartRe = Re.alt (Re.cls false [(95, 95), (97, 122), (65, 90)])
+    (Re.alt (Re.cls true [(0, 127)]) (Re.seq (Re.cls false [(92, 92)]) escTail)) := by decide
+
+theorem nmstart_ms_esc (d : Nat) (t : Cps) (hd : escOk d = true) : nmstartRe.ms (92 :: d :: t) = [2] := by
+  rw [nmstartRe_form]
+  have hA : Re.inCls false [(95, 95), (97, 122), (65, 90)] 92 = false := by decide
+  have hB : Re.inCls true [(0, 127)] 92 = false := by decide
+  have hC : Re.inCls false [(92, 92)] 92 = true := by decide
+  simp [Re.ms, hA, hB, hC, escTail_ms d t hd]
+
+/-- the first component of the URI and UNICODE-RANGE productions: `u`, `U` or one of their escapes -/
+def uPart : Re := match reURI with
+  | .seq a _ => a
+  | _ => .eps
+def uriRest : Re := match reURI with
+  | .seq _ b => b
+  | _ => .eps
+def urangeRest : Re := match reUNICODE_RANGE with
+  | .seq _ b => b
+  | _ => .eps
+def escWsOpt : Re := match uPart with
+  | .alt _ (.alt _ (.alt (.seq _ (.seq _ (.seq _ w))) _)) => w
+  | _ => .eps
+
+theorem reURI_form : reURI = Re.seq uPart uriRest := by decide
+theorem reUNICODE_RANGE_form : reUNICODE_RANGE = Re.seq uPart urangeRest := by decide
+theorem uPart_form : uPart = Re.alt (Re.cls false [(85, 85)]) (Re.alt (Re.cls false [(117, 117)])
+    (Re.alt (Re.seq (Re.cls false [(92, 92)]) (Re.seq (Re.rep (Re.cls false [(48, 48)]) 0 4 true)
+        (Re.seq (Re.alt (Re.seq (Re.cls false [(53, 53)]) (Re.cls false [(53, 53)]))
+          (Re.seq (Re.cls false [(55, 55)]) (Re.cls false [(53, 53)]))) escWsOpt)))
+      (Re.alt (Re.seq (Re.cls false [(92, 92)]) (Re.cls false [(85, 85)]))
+        (Re.seq (Re.cls false [(92, 92)]) (Re.cls false [(117, 117)]))))) := by decide
+
+/-- a backslash followed by anything but a hex digit, `u`, `U` starts neither `url(` nor a unicode range -/
+theorem uPart_ms_esc (d : Nat) (t : Cps) (hd : escOk d = true) (h85 : d ≠ 85) (h117 : d ≠ 117) :
+    uPart.ms (92 :: d :: t) = [] := by
+  have hhex := escOk_notHex hd
+  simp only [isHex, Bool.or_eq_false_iff, Bool.and_eq_false_iff, decide_eq_false_iff_not] at hhex
+  have h48 : Re.inCls false [(48, 48)] d = false := by simp [inCls_single]; omega
+  have h53 : Re.inCls false [(53, 53)] d = false := by simp [inCls_single]; omega
+  have h55 : Re.inCls false [(55, 55)] d = false := by simp [inCls_single]; omega
+  have hU : Re.inCls false [(85, 85)] d = false := by simp [inCls_single, h85]
+  have hu : Re.inCls false [(117, 117)] d = false := by simp [inCls_single, h117]
+  have a1 : Re.inCls false [(85, 85)] 92 = false := by decide
+  have a2 : Re.inCls false [(117, 117)] 92 = false := by decide
+  have a3 : Re.inCls false [(92, 92)] 92 = true := by decide
+  rw [uPart_form]
+  simp [Re.ms, Re.repMs, h48, h53, h55, hU, hu, a1, a2, a3]
+
+theorem uri_first_esc (d : Nat) (t : Cps) (hd : escOk d = true) (h85 : d ≠ 85) (h117 : d ≠ 117) :
+    reURI.first (92 :: d :: t) = none ∧ reUNICODE_RANGE.first (92 :: d :: t) = none := by
+  constructor
+  · rw [reURI_form]; exact first_none_of_ms_nil (seq_ms_nil_left (uPart_ms_esc d t hd h85 h117))
+  · rw [reUNICODE_RANGE_form]; exact first_none_of_ms_nil (seq_ms_nil_left (uPart_ms_esc d t hd h85 h117))
+
+theorem uPart_ms_u (c : Nat) (hc : c = 85 ∨ c = 117) (t : Cps) : uPart.ms (c :: t) = [1] := by
+  rw [uPart_form]
+  rcases hc with rfl | rfl <;> simp [Re.ms, Re.inCls]
+
+/-- `u` / `U` followed by a name code point other than `r` `R` starts neither `url(` nor a unicode range -/
+theorem uri_first_u (c : Nat) (hc : c = 85 ∨ c = 117) (d : Nat) (t : Cps) (hd : inRanges uSecondR d = true) :
+    reURI.first (c :: d :: t) = none ∧ reUNICODE_RANGE.first (c :: d :: t) = none := by
+  have hd' : inR uSecondR d = true := hd
+  constructor
+  · rw [reURI_form]
+    apply first_none_of_ms_nil
+    apply seq_ms_nil
+    intro l hl
+    rw [uPart_ms_u c hc] at hl
+    simp only [List.mem_cons, List.mem_nil_iff, or_false] at hl
+    subst hl
+    rw [List.drop_one, List.tail_cons]
+    exact noStart_sound (by decide) hd' t
+  · rw [reUNICODE_RANGE_form]
+    apply first_none_of_ms_nil
+    apply seq_ms_nil
+    intro l hl
+    rw [uPart_ms_u c hc] at hl
+    simp only [List.mem_cons, List.mem_nil_iff, or_false] at hl
+    subst hl
+    rw [List.drop_one, List.tail_cons]
+    exact noStart_sound (by decide) hd' t
 
 /-! ## the body of a name -/
 
@@ -176,12 +265,6 @@ theorem unescape_cons_simple (d : Nat) (u : Cps) (h1 : d ≠ 92) (h2 : isHex d =
   rw [unescapeF]
   simp [h1, h2]
 
-theorem escOk_notHex {d : Nat} (h : escOk d = true) : isHex d = false := by
-  simp only [escOk, inRanges, hexR, List.any_cons, List.any_nil, Bool.or_false, Bool.and_eq_true, Bool.not_eq_true',
-    Bool.or_eq_false_iff, Bool.and_eq_false_iff, decide_eq_false_iff_not, bne_iff_ne, ne_eq] at h
-  simp only [isHex, Bool.or_eq_false_iff, Bool.and_eq_false_iff, decide_eq_false_iff_not]
-  omega
-
 theorem unescape_body : ∀ (n : Nat) (cs : Cps), cs.length ≤ n → nameBody cs = true → unescape cs = cs := by
   intro n
   induction n with
@@ -210,8 +293,10 @@ theorem ne92_of_ranges {rs : List (Nat × Nat)} (h : inRanges rs 92 = false) {c 
 
 /-- the shape of a plain name: an optional `-`, a start code point, a body -/
 theorem plainName_shape2 {v : Cps} (h : plainName v = true) :
-    (∃ c cs, v = c :: cs ∧ c ≠ 45 ∧ inRanges identStartR c = true ∧ nameBody cs = true) ∨
-    (∃ c cs, v = 45 :: c :: cs ∧ inRanges nameStartR c = true ∧ nameBody cs = true) := by
+    (∃ c cs, v = c :: cs ∧ c ≠ 45 ∧ inRanges nameStartR c = true ∧ nameBody cs = true ∧
+      (inRanges identStartR c = true ∨ ((c = 85 ∨ c = 117) ∧ ∃ d u, cs = d :: u ∧ inRanges uSecondR d = true))) ∨
+    (∃ c cs, v = 45 :: c :: cs ∧ inRanges nameStartR c = true ∧ nameBody cs = true) ∨
+    (∃ d u, v = 92 :: d :: u ∧ escOk d = true ∧ d ≠ 85 ∧ d ≠ 117 ∧ nameBody u = true) := by
   cases v with
   | nil => simp [plainName] at h
   | cons c t =>
@@ -219,22 +304,48 @@ theorem plainName_shape2 {v : Cps} (h : plainName v = true) :
     | nil =>
       left
       have hc : inRanges identStartR c = true := by simpa [plainName] using h
-      refine ⟨c, [], rfl, ?_, hc, rfl⟩
+      refine ⟨c, [], rfl, ?_, identStart_nameStart hc, rfl, Or.inl hc⟩
       intro e; rw [e] at hc; revert hc; decide
     | cons d u =>
       by_cases hc : c = 45
       · subst hc
-        right
+        right; left
         exact ⟨d, u, rfl, by simpa [plainName] using h⟩
-      · left
-        have hc' : (c == 45) = false := by simpa using hc
-        exact ⟨c, d :: u, rfl, hc, by simpa [plainName, hc'] using h⟩
+      · have hc' : (c == 45) = false := by simpa using hc
+        by_cases hc2 : c = 92
+        · subst hc2
+          right; right
+          have : ((escOk d = true ∧ ¬ d = 85) ∧ ¬ d = 117) ∧ nameBody u = true := by simpa [plainName] using h
+          exact ⟨d, u, rfl, this.1.1.1, this.1.1.2, this.1.2, this.2⟩
+        · left
+          have hc2' : (c == 92) = false := by simpa using hc2
+          by_cases hcu : c = 85 ∨ c = 117
+          · have hcu' : (c == 85 || c == 117) = true := by simpa using hcu
+            have hh : inRanges uSecondR d = true ∧ nameBody (d :: u) = true := by
+              simpa [plainName, hc', hc2', hcu'] using h
+            exact ⟨c, d :: u, rfl, hc, by rcases hcu with rfl | rfl <;> decide, hh.2, Or.inr ⟨hcu, d, u, rfl, hh.1⟩⟩
+          · have hcu' : (c == 85 || c == 117) = false := by
+              simp only [not_or] at hcu
+              simp [hcu.1, hcu.2]
+            have hh : inRanges identStartR c = true ∧ nameBody (d :: u) = true := by
+              simpa [plainName, hc', hc2', hcu'] using h
+            exact ⟨c, d :: u, rfl, hc, identStart_nameStart hh.1, hh.2, Or.inl hh.1⟩
+
+theorem unescape_esc_start (d : Nat) (u tl : Cps) (hd : escOk d = true) (h : unescape (u ++ tl) = u ++ tl) :
+    unescape (92 :: d :: u ++ tl) = 92 :: d :: u ++ tl := by
+  simp only [List.cons_append]
+  by_cases hd92 : d = 92
+  · subst hd92
+    rw [unescape_cons_pair, h]
+  · rw [unescape_cons_simple d _ hd92 (escOk_notHex hd), unescape_cons_plain d _ hd92, h]
 
 theorem unescape_name {v : Cps} (h : plainName v = true) : unescape v = v := by
-  rcases plainName_shape2 h with ⟨c, cs, rfl, _, hc, hb⟩ | ⟨c, cs, rfl, hc, hb⟩
+  rcases plainName_shape2 h with ⟨c, cs, rfl, _, hc, hb, _⟩ | ⟨c, cs, rfl, hc, hb⟩ | ⟨d, u, rfl, hd, _, _, hb⟩
   · rw [unescape_cons_plain c cs (ne92_of_ranges (by decide) hc), unescape_body _ cs (Nat.le_refl _) hb]
   · rw [unescape_cons_plain 45 _ (by decide), unescape_cons_plain c cs (ne92_of_ranges (by decide) hc),
       unescape_body _ cs (Nat.le_refl _) hb]
+  · have := unescape_esc_start d u [] hd (by simpa using unescape_body _ u (Nat.le_refl _) hb)
+    simpa using this
 
 theorem unescape_body_append (tl : Cps) (htl : unescape tl = tl) : ∀ (n : Nat) (cs : Cps), cs.length ≤ n →
     nameBody cs = true → unescape (cs ++ tl) = cs ++ tl := by
@@ -264,11 +375,12 @@ theorem unescape_body_append (tl : Cps) (htl : unescape tl = tl) : ∀ (n : Nat)
 /-- the value of a FUNCTION token `name(` is its spelling -/
 theorem unescape_name_paren {v : Cps} (h : plainName v = true) : unescape (v ++ [40]) = v ++ [40] := by
   have h40 : unescape [40] = [40] := by decide
-  rcases plainName_shape2 h with ⟨c, cs, rfl, _, hc, hb⟩ | ⟨c, cs, rfl, hc, hb⟩
+  rcases plainName_shape2 h with ⟨c, cs, rfl, _, hc, hb, _⟩ | ⟨c, cs, rfl, hc, hb⟩ | ⟨d, u, rfl, hd, _, _, hb⟩
   · rw [List.cons_append, unescape_cons_plain c _ (ne92_of_ranges (by decide) hc),
       unescape_body_append [40] h40 _ cs (Nat.le_refl _) hb]
   · rw [List.cons_append, List.cons_append, unescape_cons_plain 45 _ (by decide),
       unescape_cons_plain c _ (ne92_of_ranges (by decide) hc), unescape_body_append [40] h40 _ cs (Nat.le_refl _) hb]
+  · exact unescape_esc_start d u [40] hd (unescape_body_append [40] h40 _ u (Nat.le_refl _) hb)
 
 theorem unescape_append_plain : ∀ (ds v : Cps), (∀ c ∈ ds, c ≠ 92) → unescape (ds ++ v) = ds ++ unescape v := by
   intro ds
@@ -291,12 +403,20 @@ theorem name_first (stops : List (Nat × Nat)) (hns : noStart stops nmcharRe = t
     (hv : plainName v = true) (hs : HeadIn (fun x => inR stops x = true) stop) :
     reIDENT.first (v ++ stop) = some v.length := by
   rw [reIDENT_eq]
-  rcases plainName_shape2 hv with ⟨c, cs, rfl, hc45, hc, hb⟩ | ⟨c, cs, rfl, hc, hb⟩
+  rcases plainName_shape2 hv with ⟨c, cs, rfl, hc45, hc, hb, _⟩ | ⟨c, cs, rfl, hc, hb⟩ | ⟨d, u, rfl, hd, _, _, hb⟩
+  rotate_left 2
+  · have e0 : (92 :: d :: u).length = 0 + (2 + u.length) := by simp; omega
+    rw [e0, List.cons_append, List.cons_append]
+    apply first_seq_some (first_of_ms_cons (dashOpt_ms 92 _ (by decide)))
+    rw [List.drop_zero]
+    apply first_seq_some (first_of_ms_cons (nmstart_ms_esc d _ hd))
+    simp only [List.drop_succ_cons, List.drop_zero]
+    exact star_body_first stops hns u stop hb hs
   · have e0 : (c :: cs).length = 0 + (1 + cs.length) := by simp; omega
     rw [e0, List.cons_append]
     apply first_seq_some (first_of_ms_cons (dashOpt_ms c _ hc45))
     rw [List.drop_zero]
-    apply first_seq_some (first_of_ms_cons (nmstart_ms c _ (identStart_nameStart hc)))
+    apply first_seq_some (first_of_ms_cons (nmstart_ms c _ hc))
     rw [List.drop_one, List.tail_cons]
     exact star_body_first stops hns cs stop hb hs
   · have hc45 : c ≠ 45 := by intro e; rw [e] at hc; revert hc; decide
@@ -308,15 +428,28 @@ theorem name_first (stops : List (Nat × Nat)) (hns : noStart stops nmcharRe = t
     rw [List.drop_one, List.tail_cons]
     exact star_body_first stops hns cs stop hb hs
 
+/-- first code points of plain names that do not start with an escape -/
+def nameHeads0 : List (Nat × Nat) := [(45, 45), (65, 84), (86, 90), (95, 95), (97, 116), (118, 122), (128, 1114111)]
 /-- first code points of plain names -/
-def nameHeads : List (Nat × Nat) := [(45, 45), (65, 84), (86, 90), (95, 95), (97, 116), (118, 122), (128, 1114111)]
+def nameHeads : List (Nat × Nat) := (92, 92) :: (85, 85) :: (117, 117) :: nameHeads0
+
+theorem nameHeads_cases {c : Nat} (h : inR nameHeads c = true) :
+    c = 92 ∨ (c = 85 ∨ c = 117) ∨ inR nameHeads0 c = true := by
+  simp only [nameHeads, inR, List.any_cons, Bool.or_eq_true, Bool.and_eq_true, decide_eq_true_eq] at h
+  rcases h with h | h | h | h
+  · left; omega
+  · right; left; left; omega
+  · right; left; right; omega
+  · right; right; simpa [inR] using h
 
 theorem plainName_head {v : Cps} (h : plainName v = true) : ∃ c t, v = c :: t ∧ inR nameHeads c = true := by
-  rcases plainName_shape2 h with ⟨c, cs, rfl, _, hc, _⟩ | ⟨c, cs, rfl, _, _⟩
+  rcases plainName_shape2 h with ⟨c, cs, rfl, _, hc, _⟩ | ⟨c, cs, rfl, _, _⟩ | ⟨d, u, rfl, _⟩
+  rotate_left 2
+  · exact ⟨92, d :: u, rfl, by decide⟩
   · refine ⟨c, cs, rfl, ?_⟩
-    simp only [inRanges, identStartR, List.any_cons, List.any_nil, Bool.or_false, Bool.or_eq_true, Bool.and_eq_true,
+    simp only [inRanges, nameStartR, List.any_cons, List.any_nil, Bool.or_false, Bool.or_eq_true, Bool.and_eq_true,
       decide_eq_true_eq] at hc
-    simp only [inR, nameHeads, List.any_cons, List.any_nil, Bool.or_false, Bool.or_eq_true, Bool.and_eq_true,
+    simp only [inR, nameHeads, nameHeads0, List.any_cons, List.any_nil, Bool.or_false, Bool.or_eq_true, Bool.and_eq_true,
       decide_eq_true_eq]
     omega
   · exact ⟨45, c :: cs, rfl, by decide⟩
@@ -326,8 +459,40 @@ theorem scan_name_ident (doC : Bool) (v stop : Cps) (hv : plainName v = true)
     (hs : HeadIn (fun x => inR nameStops x = true) stop) :
     scan false doC (v ++ stop) productions = .hit "IDENT" v.length := by
   obtain ⟨c, t, rfl, hc⟩ := plainName_head hv
-  have hsplit : productions = productions.take 3 ++ (("IDENT", reIDENT) :: productions.drop 4) := by decide
-  rw [hsplit, List.cons_append, scan_false_reject hc _ _ _ (by decide)]
+  have hpre : scan false doC (c :: t ++ stop) productions =
+      scan false doC (c :: (t ++ stop)) (("IDENT", reIDENT) :: productions.drop 4) := by
+    rcases nameHeads_cases hc with rfl | hcu | hc0
+    · rcases plainName_shape2 hv with ⟨c', cs, e, _, hc', _⟩ | ⟨c', cs, e, _, _⟩ | ⟨d, u, e, hd, h85, h117, _⟩
+      · simp only [List.cons.injEq] at e; rw [← e.1] at hc'; exact absurd hc' (by decide)
+      · simp only [List.cons.injEq] at e; exact absurd e.1 (by decide)
+      · simp only [List.cons.injEq] at e
+        obtain ⟨_, rfl⟩ := e
+        have hsplit : productions = ("S", reS) :: ("URI", reURI) :: ("UNICODE-RANGE", reUNICODE_RANGE) ::
+            ("IDENT", reIDENT) :: productions.drop 4 := by decide
+        have hu := uri_first_esc d (u ++ stop) hd h85 h117
+        conv => lhs; rw [hsplit]
+        rw [List.cons_append, List.cons_append,
+          scan_false_none (first_none_of_noStart (cs := [(92, 92)]) (by decide) (by decide) _),
+          scan_false_none hu.1, scan_false_none hu.2]
+    · rcases plainName_shape2 hv with ⟨c', cs, e, _, _, _, hor⟩ | ⟨c', cs, e, _, _⟩ | ⟨d, u, e, _⟩
+      · simp only [List.cons.injEq] at e
+        obtain ⟨rfl, rfl⟩ := e
+        rcases hor with hi | ⟨_, d, u, rfl, hd⟩
+        · rcases hcu with rfl | rfl <;> exact absurd hi (by decide)
+        · have hsplit : productions = ("S", reS) :: ("URI", reURI) :: ("UNICODE-RANGE", reUNICODE_RANGE) ::
+              ("IDENT", reIDENT) :: productions.drop 4 := by decide
+          have hu := uri_first_u c hcu d (u ++ stop) hd
+          have hcr : inR [(85, 85), (117, 117)] c = true := by rcases hcu with rfl | rfl <;> decide
+          conv => lhs; rw [hsplit]
+          rw [List.cons_append, List.cons_append,
+            scan_false_none (first_none_of_noStart (cs := [(85, 85), (117, 117)]) (by decide) hcr _),
+            scan_false_none hu.1, scan_false_none hu.2]
+      · simp only [List.cons.injEq] at e; rcases hcu with rfl | rfl <;> exact absurd e.1 (by decide)
+      · simp only [List.cons.injEq] at e; rcases hcu with rfl | rfl <;> exact absurd e.1 (by decide)
+    · have hsplit : productions = productions.take 3 ++ (("IDENT", reIDENT) :: productions.drop 4) := by decide
+      conv => lhs; rw [hsplit]
+      rw [List.cons_append, scan_false_reject hc0 _ _ _ (by decide)]
+  rw [hpre]
   have hf := name_first nameStops (by decide) (c :: t) stop hv hs
   rw [List.cons_append] at hf
   apply scan_false_hit hf
@@ -346,9 +511,41 @@ theorem scan_name_function (doC : Bool) (v rest : Cps) (hv : plainName v = true)
     scan false doC (v ++ 40 :: rest) productions = .hit "FUNCTION" (v.length + 1) := by
   have hstop : HeadIn (fun x => inR [(40, 40)] x = true) (40 :: rest) := Or.inr ⟨40, rest, rfl, by decide⟩
   obtain ⟨c, t, rfl, hc⟩ := plainName_head hv
-  have hsplit : productions = productions.take 3 ++
-      (("IDENT", reIDENT) :: ("FUNCTION", reFUNCTION) :: productions.drop 5) := by decide
-  rw [hsplit, List.cons_append, scan_false_reject hc _ _ _ (by decide)]
+  have hpre : scan false doC (c :: t ++ 40 :: rest) productions =
+      scan false doC (c :: (t ++ 40 :: rest)) (("IDENT", reIDENT) :: ("FUNCTION", reFUNCTION) :: productions.drop 5) := by
+    rcases nameHeads_cases hc with rfl | hcu | hc0
+    · rcases plainName_shape2 hv with ⟨c', cs, e, _, hc', _⟩ | ⟨c', cs, e, _, _⟩ | ⟨d, u, e, hd, h85, h117, _⟩
+      · simp only [List.cons.injEq] at e; rw [← e.1] at hc'; exact absurd hc' (by decide)
+      · simp only [List.cons.injEq] at e; exact absurd e.1 (by decide)
+      · simp only [List.cons.injEq] at e
+        obtain ⟨_, rfl⟩ := e
+        have hsplit : productions = ("S", reS) :: ("URI", reURI) :: ("UNICODE-RANGE", reUNICODE_RANGE) ::
+            ("IDENT", reIDENT) :: ("FUNCTION", reFUNCTION) :: productions.drop 5 := by decide
+        have hu := uri_first_esc d (u ++ 40 :: rest) hd h85 h117
+        conv => lhs; rw [hsplit]
+        rw [List.cons_append, List.cons_append,
+          scan_false_none (first_none_of_noStart (cs := [(92, 92)]) (by decide) (by decide) _),
+          scan_false_none hu.1, scan_false_none hu.2]
+    · rcases plainName_shape2 hv with ⟨c', cs, e, _, _, _, hor⟩ | ⟨c', cs, e, _, _⟩ | ⟨d, u, e, _⟩
+      · simp only [List.cons.injEq] at e
+        obtain ⟨rfl, rfl⟩ := e
+        rcases hor with hi | ⟨_, d, u, rfl, hd⟩
+        · rcases hcu with rfl | rfl <;> exact absurd hi (by decide)
+        · have hsplit : productions = ("S", reS) :: ("URI", reURI) :: ("UNICODE-RANGE", reUNICODE_RANGE) ::
+              ("IDENT", reIDENT) :: ("FUNCTION", reFUNCTION) :: productions.drop 5 := by decide
+          have hu := uri_first_u c hcu d (u ++ 40 :: rest) hd
+          have hcr : inR [(85, 85), (117, 117)] c = true := by rcases hcu with rfl | rfl <;> decide
+          conv => lhs; rw [hsplit]
+          rw [List.cons_append, List.cons_append,
+            scan_false_none (first_none_of_noStart (cs := [(85, 85), (117, 117)]) (by decide) hcr _),
+            scan_false_none hu.1, scan_false_none hu.2]
+      · simp only [List.cons.injEq] at e; rcases hcu with rfl | rfl <;> exact absurd e.1 (by decide)
+      · simp only [List.cons.injEq] at e; rcases hcu with rfl | rfl <;> exact absurd e.1 (by decide)
+    · have hsplit : productions = productions.take 3 ++
+          (("IDENT", reIDENT) :: ("FUNCTION", reFUNCTION) :: productions.drop 5) := by decide
+      conv => lhs; rw [hsplit]
+      rw [List.cons_append, scan_false_reject hc0 _ _ _ (by decide)]
+  rw [hpre]
   have hid := name_first [(40, 40)] (by decide) (c :: t) (40 :: rest) hv hstop
   rw [List.cons_append] at hid
   have htake : (c :: (t ++ 40 :: rest)).take (c :: t).length = c :: t := by
@@ -359,13 +556,23 @@ theorem scan_name_function (doC : Bool) (v rest : Cps) (hv : plainName v = true)
   rw [scan_false_skip hid (by simp only [identContinue, htake, hand, hget, hlt]; simp)]
   apply scan_false_hit
   · rw [reFUNCTION_eq, ← List.cons_append]
-    rcases plainName_shape2 hv with ⟨c', cs, e, hc45, hc', hb⟩ | ⟨c', cs, e, hc', hb⟩
+    rcases plainName_shape2 hv with ⟨c', cs, e, hc45, hc', hb, _⟩ | ⟨c', cs, e, hc', hb⟩ | ⟨d, u, e, hd, _, _, hb⟩
+    rotate_left 2
+    · rw [e]
+      have e0 : (92 :: d :: u).length + 1 = 0 + (2 + (u.length + 1)) := by simp; omega
+      rw [e0, List.cons_append, List.cons_append]
+      apply first_seq_some (first_of_ms_cons (dashOpt_ms 92 _ (by decide)))
+      rw [List.drop_zero]
+      apply first_seq_some (first_of_ms_cons (nmstart_ms_esc d _ hd))
+      simp only [List.drop_succ_cons, List.drop_zero]
+      apply first_seq_some (star_body_first [(40, 40)] (by decide) u (40 :: rest) hb hstop)
+      rw [List.drop_left' rfl, first_cls_cons]; decide
     · rw [e]
       have e0 : (c' :: cs).length + 1 = 0 + (1 + (cs.length + 1)) := by simp; omega
       rw [e0, List.cons_append]
       apply first_seq_some (first_of_ms_cons (dashOpt_ms c' _ hc45))
       rw [List.drop_zero]
-      apply first_seq_some (first_of_ms_cons (nmstart_ms c' _ (identStart_nameStart hc')))
+      apply first_seq_some (first_of_ms_cons (nmstart_ms c' _ hc'))
       rw [List.drop_one, List.tail_cons]
       apply first_seq_some (star_body_first [(40, 40)] (by decide) cs (40 :: rest) hb hstop)
       rw [List.drop_left' rfl, first_cls_cons]; decide
@@ -428,6 +635,30 @@ theorem scan_name_dimension (doC : Bool) (d : Nat) (ds v stop : Cps) (hd : ∀ x
   · rw [reDIMENSION_eq]
     apply first_seq_some (numRe_first d ds _ hd (numStop_name hv))
     rw [drop_length_append]
+    exact name_first nameStops (by decide) v stop hv hst
+  · simp [identContinue]
+
+/-- **signed DIMENSION** `+3n`, `-2n`: a sign, ASCII digits, a plain name, then the end or a `nameStops` code point -/
+theorem scan_signed_dimension (doC : Bool) (sg : Nat) (hsg : sg = 43 ∨ sg = 45) (d : Nat) (ds v stop : Cps)
+    (hd : ∀ x ∈ d :: ds, isDigit x = true) (hv : plainName v = true)
+    (hst : HeadIn (fun x => inR nameStops x = true) stop) :
+    scan false doC (sg :: (d :: ds ++ (v ++ stop))) productions =
+      .hit "DIMENSION" ((d :: ds).length + 1 + v.length) := by
+  have hcc : inR [(43, 43), (45, 45)] sg = true := by rcases hsg with rfl | rfl <;> decide
+  have hd0 : isDigit d = true := hd d (by simp)
+  have hsplit : productions = productions.take 3 ++ (("IDENT", reIDENT) :: ("FUNCTION", reFUNCTION) ::
+      ("DIMENSION", reDIMENSION) :: productions.drop 6) := by decide
+  rw [hsplit, scan_false_reject hcc _ _ _ (by decide)]
+  rw [scan_false_none (first_none_of_ms_nil (by
+    rw [reIDENT_eq, List.cons_append]; exact noname_signed sg hsg d _ hd0 _))]
+  rw [scan_false_none (first_none_of_ms_nil (by
+    rw [reFUNCTION_eq, List.cons_append]; exact noname_signed sg hsg d _ hd0 _))]
+  apply scan_false_hit
+  · rw [reDIMENSION_eq]
+    apply first_seq_some (numRe_first_signed sg hsg d ds _ hd (numStop_name hv))
+    have : (sg :: (d :: ds ++ (v ++ stop))).drop ((d :: ds).length + 1) = v ++ stop := by
+      rw [List.drop_succ_cons, drop_length_append]
+    rw [this]
     exact name_first nameStops (by decide) v stop hv hst
   · simp [identContinue]
 
